@@ -124,6 +124,14 @@ def body_full(rt):
     return simos.drive(main())
 
 
+def body_restart(rt):
+    """the same program run twice in a row (second process = new session
+    after the first one exited)"""
+    first = body_full(rt)
+    rt.restart_process()
+    return [first, body_full(rt)]
+
+
 def body_fmmu(rt):
     lk = lock_mod.FMMULock(FMMU)
     addr = lk.get_next_addr()
@@ -134,7 +142,7 @@ def body_fmmu(rt):
     return [addr >> 22]
 
 
-BODIES = dict(full=body_full, fmmu=body_fmmu)
+BODIES = dict(full=body_full, fmmu=body_fmmu, restart=body_restart)
 
 
 # ------------------------------------------------------------------- monitor
@@ -315,7 +323,12 @@ def make_space(name, kind, n, preempt, crashes, seed, cap=None):
                   seed=seed, eth=dom["eth"], slot=dom["slot"])
 
     def factory():
-        return simos.Run(simos.World(DIRS), [BODIES[kind]] * n, params=dom)
+        if kind == "restart":     # process 0 restarts once, the others not
+            return simos.Run(simos.World(DIRS),
+                             [body_restart] + [body_full] * (n - 1),
+                             params=dom)
+        return simos.Run(simos.World(DIRS), [BODIES[kind]] * n, params=dom,
+                         symmetric=True)
     return simos.Space(name, factory, monitor, preempt=preempt,
                        crashes=crashes, params=params, describe=describe,
                        state_cap=cap)
